@@ -85,6 +85,9 @@ def rand_net4(rng, plen=None):
     a = rng.getrandbits(32)
     if plen < 32:
         a &= ~((1 << (32 - plen)) - 1) & 0xFFFFFFFF
+    if plen == 32 and rng.random() < 0.5:
+        # bare spelling of a single address, sometimes one that looks like a network number
+        return str(ipaddress.IPv4Address(a & rng.choice([0xFFFFFFFF, 0xFFFFFF00, 0xFFFF0000])))
     return "%s/%d" % (ipaddress.IPv4Address(a), plen)
 
 
@@ -97,6 +100,8 @@ def prefix_lists(rng, quick):
         ["255.255.255.255/32", "0.0.0.0/32"],
         ["20.0.0.0/25", "20.0.0.128/25"], ["10.0.0.0/16", "10.0.0.0/8"], ["10.0.0.0/8", "10.0.0.0/24", "10.0.0.0/30"], ["10.0.0.0/9", "10.128.0.0/9", "30.1.2.0/31", "30.1.2.2/31"],
         list(README_DEFAULT_PREFIXES) + ["100.64.0.0/10"],
+        # bare entries (no /len) name one address, also when they end in zero octets
+        ["10.20.30.0"], ["10.0.0.0", "172.16.0.0"], ["192.168.2.0/24"], ["50.60.0.0/16", "50.61.70.0"],
     ]
     out = list(fixed)
     for _ in range(3 if quick else 12):
@@ -109,7 +114,8 @@ def address_lists(rng, quick):
              ["11.11.11.11", "12.20.0.0/16"], ["0.0.0.0/1"], ["200.1.2.3/32", "200.1.2.2/32"],
              ["10.0.0.0/24"], ["192.168.0.0/24", "172.16.0.0/16"], ["0.0.0.0/8", "128.0.0.0/9"], ["10.0.0.0/16", "10.0.0.0/8"],
              ["10.1.0.0/16", "10.0.0.0/8"], ["10.0.0.0/8", "10.1.0.0/16", "10.1.2.0/24"], list(RFC1918) + ["10.1.0.0/16"],
-             ["192.168.128.0/17", "192.168.0.0/16", "172.20.0.0/14"], ["50.0.0.0/7", "51.2.0.0/15", "51.3.3.0/24"]]
+             ["192.168.128.0/17", "192.168.0.0/16", "172.20.0.0/14"], ["50.0.0.0/7", "51.2.0.0/15", "51.3.3.0/24"],
+             ["10.20.30.0"], ["10.0.0.0"], ["192.168.0.0", "11.11.0.0"]]
     out = list(fixed)
     for _ in range(2 if quick else 8):
         out.append([rand_net4(rng, rng.choice([8, 16, 20, 24, 27, 30, 31, 32])) for _ in range(rng.randint(1, 3))])
